@@ -237,7 +237,15 @@ def exec_block(ctx, fr, stmts):
     for s in stmts:
         if live(ctx, fr) is False:
             return
-        exec_stmt(ctx, fr, s)
+        try:
+            exec_stmt(ctx, fr, s)
+        except Unsupported as e:
+            # annotate once with the source location that was being interpreted
+            if not getattr(e, "located", False):
+                e.located = True
+                e.args = ("%s [at %s:%s]" % (e.args[0] if e.args else "", getattr(fr.fn, "__qualname__", "?"),
+                                             getattr(s, "lineno", "?")),)
+            raise
 
 
 def set_var(ctx, fr, name, v):
